@@ -488,6 +488,13 @@ func runC13(r *Run, replay *Case) {
 					r.Add(c13PipeCase(p, replay.Input["pos"].(string)))
 				}
 			}
+		case "conv":
+			d := map[string]any{}
+			for _, a := range c13Args {
+				d[a.name] = a.v
+			}
+			res := renderPage(map[string]string{"p.vuego": replay.Input["tpl"].(string)}, "p.vuego", d, vuego.WithFuncs(c13Funcs()))
+			r.Add(&Case{Name: "replay " + replay.Input["expr"].(string), Input: replay.Input, Impl: res.canon(), Oracle: &Verdict{OK: true}})
 		case "expr":
 			res := renderPage(map[string]string{"p.vuego": replay.Input["tpl"].(string)}, "p.vuego", c13Env)
 			r.Add(&Case{Name: "replay " + replay.Input["src"].(string), Input: replay.Input, Impl: res.canon(), Oracle: &Verdict{OK: true}})
@@ -526,6 +533,7 @@ func runC13(r *Run, replay *Case) {
 			r.Add(c13PipeCase(p, pos))
 		}
 	}
+	c13ConvCases(r)
 	// built-in-only pipe chains: real engine vs the Lean pipe interpreter (parsePipeExpr / evalPipe / callBuiltin), byte for byte
 	heads := []string{"s", "t", "e", "n", "lst", "obj.k", "st.Y", "missing", "'lit'", "upper(s)", "len(lst)", "digits"}
 	segs := []string{"upper", "lower", "trim", "len", "string", "escape", "default('d')", "default(t)", "default(missing)", "nosuch", "upper(1)", "default", "upper()"}
